@@ -236,6 +236,9 @@ PROPS = {
         "rule": "all 64 squares x offset pairs (quick: |d| <= 9 plus extremes; thorough: all 65 536) in a build with and one without overflow checks; every enum value's text; all strings of length <= 2 over an 18-symbol alphabet; move texts: legal-shape values, near misses, random strings",
         "assumptions": VALUE_ASSUME,
         "jobs": [
+            {"type": "model", "name": "model-coordinates", "spec": "MC_Coord", "exhaustive": True,
+             "params": {"quick": {"workers": 12, "xmx": "6g", "bounds": "all 64 squares x 256 x 256 offset pairs; every value of every text type incl. all 20 480 legal-shape moves; all 1- and 2-letter texts over an 18-symbol alphabet"},
+                        "thorough": {"workers": 16, "xmx": "6g", "bounds": "all 64 squares x 256 x 256 offset pairs; every value of every text type incl. all 20 480 legal-shape moves; all 1- and 2-letter texts over an 18-symbol alphabet"}}},
             value_job("coord-release", "coord", ["C19"], {"move-fuzz": 3000}, {"move-fuzz": 300000, "full-offsets": 1, "all-moves": 1}, sample_kinds=["offs", "txt", "sq"]),
             value_job("coord-overflow-checks", "coord", ["C19"], {"move-fuzz": 1000}, {"move-fuzz": 50000, "full-offsets": 1}, variant="dev", seed_offset=31, sample_kinds=["offs"]),
         ],
